@@ -1,6 +1,9 @@
 //! C07: jar remapping (`dukebox::remap`) against the Lean model of `remap.rs` over the reference skeleton of a class.
 //! Wire format: lean/FeatherModel/Driver/C07.lean. Request arguments:
 //!   <class | jar | name>  <mappings (mapcodec, 2 namespaces)>  (<supers> <hints>)  <table>  [<writable>]
+//! `<writable>` (`oracle-reopen`): every class of the jar is one duke must be able to write (`classes_writable`: decided from the
+//! hints and the description, never by the writer). `oracle-table-spec` compares the table with the harness-own reading of the
+//! mappings and super-type rows (`Spec`), the model side recomputes it with C06's model of `remapper_b`.
 //! The model reads the first argument and the table (the remapper's answers); the implementation rebuilds the real
 //! objects: the remapper from the mappings and the super-class lists (`remapper_b`), every class from its hint
 //! (`(gen seed)`: the generator below, `(corpus file)`: a javac-compiled class, `(fixture name)`: a hand-built class),
@@ -302,7 +305,8 @@ impl Pool {
 	fn anns(&self, r: &mut Rng) -> Vec<Annotation> { if r.chance(1, 3) { (0..r.range(1, 2)).map(|_| self.ann(r, 0)).collect() } else { vec![] } }
 	fn attrs(&self, r: &mut Rng) -> Vec<Attribute> { if !self.clean && r.chance(1, 6) { vec![Attribute { name: js("Unknown"), bytes: vec![0, r.below(200) as u8] }] } else { vec![] } }
 	fn vt(&self, r: &mut Rng) -> VerificationTypeInfo {
-		match r.below(6) { 0 => VerificationTypeInfo::Top, 1 => VerificationTypeInfo::Integer, 2 => VerificationTypeInfo::Null, 3 => VerificationTypeInfo::UninitializedThis, _ => VerificationTypeInfo::Object(cn(&self.any(r))) }
+		match r.below(9) { 0 => VerificationTypeInfo::Top, 1 => VerificationTypeInfo::Integer, 2 => VerificationTypeInfo::Null, 3 => VerificationTypeInfo::UninitializedThis,
+			4 => VerificationTypeInfo::Float, 5 => VerificationTypeInfo::Long, 6 => VerificationTypeInfo::Double, _ => VerificationTypeInfo::Object(cn(&self.any(r))) }
 	}
 	fn frame(&self, r: &mut Rng) -> StackMapData {
 		match r.below(5) {
@@ -606,12 +610,30 @@ fn gen_mappings(r: &mut Rng, classes: &[Cl], stats: &mut fvh::run::Stats) -> GMa
 		rows.insert(n.clone(), (dst, vec![], vec![]));
 	}
 	members.sort(); members.dedup();
+	// a mapping set cannot hold a member whose name is not a name (JVMS 4.2.2; `<init>` / `<clinit>` aside) or whose descriptor
+	// is not of the grammar: decided here by the harness' own text checks, so that (nearly) every mapping set can be built
+	let before = members.len();
+	members.retain(|(_, n, d, is_field)| { let (n, d) = (js(n), js(d));
+		if *is_field { field_name_ok(&n) && field_desc_ok(&d) } else { (field_name_ok(&n) && !n.contains('<') && !n.contains('>') || *n == *"<init>" || *n == *"<clinit>") && method_desc_ok(&d) } });
+	if members.len() != before { stats.hit("map:member-not-expressible-in-a-mapping-set"); }
 	let mut fresh = 0usize;
 	for (owner, name, desc, is_field) in &members {
 		if !r.chance(density, 100) || (name.starts_with('<') && !r.chance(1, 10)) { continue; }
 		let target = format!("{}_{}", name.trim_matches(|c| c == '<' || c == '>'), r.below(3));
-		let place = match r.below(5) {
+		let place = match r.below(6) {
 			0 | 1 | 2 => { stats.hit("member:direct"); owner.clone() }
+			5 => {
+				// inherited from the super type of a super type (the middle one with or without a row of its own, a second
+				// super type listed before it half of the time): the search has to recurse, not only look one level up
+				fresh += 1;
+				let (mid, top) = (format!("mid/M{}", fresh % 3), format!("top/T{}", fresh % 2));
+				if r.chance(1, 2) { add_edge(&mut edges, owner, &format!("side/I{}", fresh % 2)); }
+				if add_edge(&mut edges, owner, &mid) && add_edge(&mut edges, &mid, &top) {
+					stats.hit("member:inherited-two-levels");
+					if r.chance(1, 2) && !rows.contains_key(&mid) { rows.insert(mid.clone(), (Some(format!("r/{}", mid.replace('/', "_"))), vec![], vec![])); }
+					top
+				} else { owner.clone() }
+			}
 			3 => {
 				// inherited from a super type outside the classes under test
 				fresh += 1;
@@ -706,8 +728,10 @@ fn result_jar_sexp(j: &PJ) -> R<Sexp> {
 	}
 	Ok(Sexp::list(out))
 }
-/// (names, per entry: class header refs | bytes) of a jar written by `to_mem` and opened again through dukebox's zip reader
-fn reopen(j: PJ) -> R<Vec<(String, Option<Vec<Ref>>, Option<Vec<u8>>)>> {
+/// what `oracle-reopen` looks at per entry: the name, and either every fact of the class or the bytes of the file
+type Seen = Vec<(String, Option<Sexp>, Option<Vec<u8>>)>;
+/// a jar written by `to_mem` and opened again through dukebox's zip reader; the error names the stage that failed
+fn reopen(j: PJ) -> R<Seen> {
 	let mem = j.to_mem().map_err(|e| format!("write: {e}"))?;
 	let mut z = mem.open().map_err(|e| format!("open: {e}"))?;
 	let mut out = Vec::new();
@@ -717,27 +741,20 @@ fn reopen(j: PJ) -> R<Vec<(String, Option<Vec<Ref>>, Option<Vec<u8>>)>> {
 		match e.to_jar_entry_enum().map_err(|e| format!("content: {e}"))? {
 			JarEntryEnum::Dir => out.push((name, None, None)),
 			JarEntryEnum::Other(d) => out.push((name, None, Some(d.get_data_owned()))),
-			JarEntryEnum::Class(c) => out.push((name, Some(header_refs(&project(&c.read().map_err(|e| format!("reread: {e}"))?))), None)),
+			JarEntryEnum::Class(c) => out.push((name, Some(facts(&normal(c.read().map_err(|e| format!("reread: {e}"))?)).map_err(|e| format!("facts: {e}"))?), None)),
 		}
 	}
 	Ok(out)
 }
-/// the declarations: what must survive a write / read of the class whatever the writer does with code attributes
-fn header_refs(c: &Cl) -> Vec<Ref> {
-	let mut v = vec![Ref::Cls(c.name.clone())];
-	if let Some(s) = &c.sup { v.push(Ref::Cls(s.clone())); }
-	v.extend(c.itfs.iter().map(|i| Ref::Cls(i.clone())));
-	v.extend(c.fields.iter().map(|f| Ref::FieldDecl(f.name.clone(), f.desc.clone())));
-	v.extend(c.methods.iter().map(|m| Ref::MethodDecl(m.name.clone(), m.desc.clone())));
-	v
-}
-fn expected_reopen(j: &PJ) -> R<Vec<(String, Option<Vec<Ref>>, Option<Vec<u8>>)>> {
+/// what must come back: same entry names in the same order, directories stay directories, every other file keeps its bytes
+/// (the empty file included), every class keeps every fact (all references and the whole shape, `normal`)
+fn expected_reopen(j: &PJ) -> R<Seen> {
 	let mut out = Vec::new();
 	for (n, e) in &j.entries {
 		out.push(match &e.content {
 			JarEntryEnum::Dir => (if n.ends_with('/') { n.clone() } else { format!("{n}/") }, None, None),
 			JarEntryEnum::Other(d) => (n.clone(), None, Some(d.clone())),
-			JarEntryEnum::Class(c) => (n.clone(), Some(header_refs(&project(&c.clone().read().map_err(|e| e.to_string())?))), None),
+			JarEntryEnum::Class(c) => (n.clone(), Some(facts(&normal(c.clone().read().map_err(|e| e.to_string())?))?), None),
 		});
 	}
 	Ok(out)
@@ -746,27 +763,213 @@ fn clone_jar(j: &PJ) -> PJ {
 	ParsedJar { entries: j.entries.iter().map(|(n, e)| (n.clone(), ParsedJarEntry { attr: e.attr, content: match &e.content {
 		JarEntryEnum::Dir => JarEntryEnum::Dir, JarEntryEnum::Other(d) => JarEntryEnum::Other(d.clone()), JarEntryEnum::Class(c) => JarEntryEnum::Class(c.clone()) } })).collect() }
 }
-/// the input jar itself survives `to_mem` and re-opening (domain of `oracle-reopen`: the classes are writable by duke)
-fn writable(j: &PJ) -> bool {
-	// class entries must carry a `.class` name, everything else not, or the zip reader classifies them differently
-	for (n, e) in &j.entries {
-		let is_class = matches!(e.content, JarEntryEnum::Class(_));
-		if is_class != n.ends_with(".class") || n.is_empty() { return false; }
-		if matches!(e.content, JarEntryEnum::Dir) != n.ends_with('/') { return false; }
+/// structural half of the domain of `oracle-reopen` (mirror of `reopenNamesOk`, recomputed from the jar on both sides): class
+/// entries carry a `.class` name, nothing else does, directories and only they end in `/`, no empty name — or the zip reader
+/// classifies an entry differently. `kind`: 0 directory, 1 other file, 2 class
+fn reopen_names_ok(names: &[String], kinds: &[u8]) -> bool {
+	names.iter().zip(kinds).all(|(n, k)| !n.is_empty() && (*k == 2) == n.ends_with(".class") && (*k == 0) == n.ends_with('/'))
+}
+/// the other half, shipped as the flag of the request: every class of the jar is one that duke must be able to write and
+/// read back unchanged. Corpus classes (javac output), assembled classes and fixtures are such classes by construction
+/// (verified once on the unchanged tree: `C07_PROBE=20000 c07 gen`); for a generated class the generator's own
+/// well-formedness decides (`gen_wf`). The class writer is never asked (DESIGN 11.1c (ii), audit H2): a writer that rejects
+/// or mangles one of these classes is a failing input of `oracle-reopen`, not a smaller domain
+fn classes_writable(hints: &[Sexp], cls: &[Cl]) -> bool {
+	let mut it = cls.iter();
+	hints.iter().filter(|h| h.as_list().map_or(false, |l| !l.is_empty())).all(|h| {
+		let Some(c) = it.next() else { return false };
+		match h.as_list().ok().and_then(|l| l.first()).and_then(|k| k.as_atom().ok()) {
+			Some("corpus" | "asm" | "fixture") => true,
+			Some("gen") => gen_wf(c),
+			_ => false,
+		}
+	})
+}
+
+// ------------------------------------------------------------------ what a duke write / read round trip keeps: every fact
+
+/// every fact of a class (C01's canonical description, label ids read as the index of the instruction that carries them)
+fn facts(c: &ClassFile) -> R<Sexp> { fvh::c01facts::class(c, true) }
+
+fn probe(n: u64) {
+	let mut bad = BTreeMap::new();
+	let mut all: Vec<(String, ClassFile, bool)> = Vec::new();
+	for f in corpus_files(Tier::Thorough) { if let Ok(c) = corpus_class(&f) { all.push((f, c, true)); } }
+	for f in FIXTURES { if let Some(c) = fixture(f) { all.push((f.to_string(), c, true)); } }
+	for seed in 0..n { if let Ok(c) = gen_asm(seed) { all.push((format!("asm{seed}"), c, true)); } }
+	for seed in 0..n { let c = gen_class(seed); let w = gen_wf(&project(&c)); all.push((format!("gen{seed}"), c, w)); }
+	for (seed, c, spec) in all {
+		let mut bytes = Vec::new();
+		let actual = match duke::write_class(&mut bytes, &c) {
+			Err(e) => format!("write: {e:#}"),
+			Ok(()) => match duke::read_class(&mut Cursor::new(bytes)) {
+				Err(e) => format!("read: {e:#}"),
+				Ok(c2) => match (facts(&normal(c.clone())), facts(&normal(c2))) { (Ok(a), Ok(b)) => if a == b { "ok".to_owned() } else {
+					let (a, b) = (a.to_string(), b.to_string());
+					let i = a.bytes().zip(b.bytes()).position(|(x, y)| x != y).unwrap_or(0);
+					format!("differs: {} | {}", &a[i.saturating_sub(60)..(i + 40).min(a.len())], &b[i.saturating_sub(60)..(i + 40).min(b.len())]) },
+					(a, b) => format!("facts: {:?} {:?}", a.err(), b.err()) },
+			},
+		};
+		let key = format!("spec={spec} actual={}", if actual == "ok" { "ok" } else { "no" });
+		let e = bad.entry(key).or_insert((0u64, Vec::new()));
+		e.0 += 1;
+		if (spec != (actual == "ok")) && e.1.len() < 40 { let m = project(&c); e.1.push(format!("{seed}: {actual} {:?}", refs(&m).into_iter().find(|r| !gen_wf_ref(r)))); }
 	}
-	// every class can be written by duke and read back with the same declarations. This is decided with duke's class
-	// writer / reader alone (the subject of C02 / C01), NOT by sending the jar through the jar and zip code under test:
-	// a zip layer that loses or reclassifies an entry must stay INSIDE the domain (DESIGN 11.1c (ii); seed C07-J)
-	for e in j.entries.values() {
-		if let JarEntryEnum::Class(c) = &e.content {
-			let Ok(c) = c.clone().read() else { return false };
-			let mut bytes = Vec::new();
-			if duke::write_class(&mut bytes, &c).is_err() { return false; }
-			let Ok(c2) = duke::read_class(&mut std::io::Cursor::new(bytes)) else { return false };
-			if header_refs(&project(&c2)) != header_refs(&project(&c)) { return false; }
+	for (k, (n, v)) in bad { eprintln!("{k}: {n}"); for x in v { eprintln!("   {x}"); } }
+}
+/// JVMS 4.2.1 binary class name in internal form (text checks of the harness, not duke's parser)
+fn class_name_ok(s: &JavaStr) -> bool { !s.starts_with('[') && s.split('/').all(field_name_ok) }
+/// JVMS 4.3.2 field descriptor: the rest after one field type
+fn field_type(d: &str) -> Option<&str> {
+	let t = d.trim_start_matches('[');
+	if d.len() - t.len() > 255 { return None; }
+	match t.chars().next()? {
+		'B' | 'C' | 'D' | 'F' | 'I' | 'J' | 'S' | 'Z' => Some(&t[1..]),
+		'L' => { let i = t.find(';')?; if class_name_ok(&js(&t[1..i])) { Some(&t[i + 1..]) } else { None } }
+		_ => None,
+	}
+}
+fn field_desc_ok(d: &JavaStr) -> bool { d.as_str().ok().and_then(field_type) == Some("") }
+/// JVMS 4.3.3 method descriptor
+fn method_desc_ok(d: &JavaStr) -> bool {
+	let Some(mut rest) = d.as_str().ok().and_then(|d| d.strip_prefix('(')) else { return false };
+	loop {
+		if let Some(r) = rest.strip_prefix(')') { return r == "V" || field_type(r) == Some(""); }
+		match field_type(rest) { Some(r) => rest = r, None => return false }
+	}
+}
+fn any_name_ok(n: &JavaStr) -> bool { if is_array(n) { field_desc_ok(n) } else { class_name_ok(n) } }
+/// the generator's own well-formedness: a class of `gen_class` that duke's writer must accept and that must read back as the
+/// same facts — every name / descriptor position holds a name / descriptor of its JVMS grammar, every method body has an
+/// instruction. Decided on the description in the request alone (DESIGN 11.1c (ii)), never by running the writer.
+fn gen_wf(m: &Cl) -> bool {
+	refs(m).iter().all(gen_wf_ref) && m.methods.iter().all(|x| x.code.as_ref().map_or(true, |c| !c.insns.is_empty()))
+}
+fn gen_wf_ref(r: &Ref) -> bool {
+	let mref = |r: &MRef, field: bool| any_name_ok(&r.cls) && if field { field_desc_ok(&r.desc) } else { method_desc_ok(&r.desc) };
+	match r {
+		Ref::Cls(n) => class_name_ok(n),
+		Ref::Any(n) => any_name_ok(n),
+		Ref::Desc(d) | Ref::Dyn(d) => if d.starts_with('(') { method_desc_ok(d) } else { **d == *"V" || field_desc_ok(d) },
+		Ref::FieldDecl(n, d) => field_name_ok(n) && field_desc_ok(d),
+		Ref::MethodDecl(_, d) => method_desc_ok(d),
+		Ref::FieldRef(f) => mref(f, true),
+		Ref::MethodRef(x) => mref(x, false),
+		// plain strings of the constant pool as far as the class file format is concerned: any text must survive
+		Ref::EnumConst(..) => true,
+		Ref::RecordDecl(_, d) => field_desc_ok(d),
+	}
+}
+/// the one thing a write / read of a class does not keep (both sides of a comparison are brought to this form): an empty local
+/// variable table is no table (`Some([])` is written as no attribute and read back as `None`; it carries no fact)
+fn normal(mut c: ClassFile) -> ClassFile {
+	for m in &mut c.methods { if let Some(code) = &mut m.code {
+		if code.local_variables.as_ref().map_or(false, |v| v.is_empty()) { code.local_variables = None; }
+	} }
+	c
+}
+
+// ------------------------------------------------------------------ the remapper the REQUEST describes (reference lookup)
+// Harness-own reading of the mappings and super-type rows of a request (C06's specification, never quill's remapper): a class
+// takes the target name of the last row that names it and has a target name, any other name is unchanged; a descriptor of
+// the JVMS grammar has every class name in it renamed that way; a member is renamed by the nearest type that declares it
+// along the pre-order of the super types (declaration order) starting at the owner, its descriptor rewritten; a member
+// nobody declares keeps its name.
+
+struct SRow { src: S, dst: Option<S>, fields: Vec<(S, S, Option<S>)>, methods: Vec<(S, S, Option<S>)> }
+struct Spec { rows: Vec<SRow>, supers: Vec<(S, Vec<S>)> }
+impl Spec {
+	fn from(maps: &Sexp, sup: &Sexp) -> R<Spec> {
+		let opt = |v: &Sexp| -> R<Option<S>> { Ok(match v.as_opt()? { None => None, Some(x) => Some(x.as_jstring()?) }) };
+		let [_, _, classes] = maps.as_list()? else { return Err("maps".into()) };
+		let mut rows = Vec::new();
+		for c in classes.as_list()? {
+			let [_, names, _, fs, ms] = c.as_list()? else { return Err("class row".into()) };
+			let [n0, n1] = names.as_list()? else { return Err("names".into()) };
+			let Some(src) = opt(n0)? else { continue };
+			let members = |l: &Sexp| -> R<Vec<(S, S, Option<S>)>> {
+				let mut v = Vec::new();
+				for m in l.as_list()? {
+					let m = m.as_list()?;
+					let (Some(desc), Some(names)) = (m.get(2), m.get(3)) else { return Err("member row".into()) };
+					let [m0, m1] = names.as_list()? else { return Err("member names".into()) };
+					if let Some(n) = opt(m0)? { v.push((n, desc.as_jstring()?, opt(m1)?)); }
+				}
+				Ok(v)
+			};
+			rows.push(SRow { src, dst: opt(n1)?, fields: members(fs)?, methods: members(ms)? });
+		}
+		let mut supers = Vec::new();
+		for e in sup.as_list()? {
+			let [c, ss] = e.as_list()? else { return Err("supers row".into()) };
+			supers.push((c.as_jstring()?, ss.as_list()?.iter().map(|x| x.as_jstring()).collect::<R<Vec<S>>>()?));
+		}
+		Ok(Spec { rows, supers })
+	}
+	fn class(&self, c: &JavaStr) -> S {
+		self.rows.iter().rev().find_map(|r| if *r.src == *c { r.dst.clone() } else { None }).unwrap_or_else(|| c.to_owned())
+	}
+	/// only for descriptors of the grammar (`field_desc_ok` / `method_desc_ok` / `V`): every `L name ;` renamed
+	fn desc(&self, d: &JavaStr) -> S {
+		let text = d.as_str().unwrap_or("");
+		let (mut out, mut rest) = (String::new(), text);
+		while let Some(c) = rest.chars().next() {
+			if c == 'L' { if let Some(i) = rest.find(';') { out.push('L'); out.push_str(&self.class(&js(&rest[1..i])).to_string()); out.push(';'); rest = &rest[i + 1..]; continue; } }
+			out.push(c); rest = &rest[c.len_utf8()..];
+		}
+		js(&out)
+	}
+	fn all_member_descs_ok(&self) -> bool {
+		self.rows.iter().all(|r| r.fields.iter().all(|f| field_desc_ok(&f.1)) && r.methods.iter().all(|m| method_desc_ok(&m.1)))
+	}
+	fn pre_order(&self, fuel: usize, o: &JavaStr, out: &mut Vec<S>) -> Option<()> {
+		if fuel == 0 { return None; }
+		out.push(o.to_owned());
+		if let Some((_, ss)) = self.supers.iter().find(|(k, _)| **k == *o) { for s in ss { self.pre_order(fuel - 1, s, out)?; } }
+		Some(())
+	}
+	fn declares(&self, field: bool, c: &JavaStr, n: &JavaStr, d: &JavaStr) -> Option<(S, S)> {
+		let row = self.rows.iter().rev().find(|r| *r.src == *c && r.dst.is_some())?;
+		(if field { &row.fields } else { &row.methods }).iter().rev().find_map(|(mn, md, mt)| match mt {
+			Some(t) if **mn == *n && **md == *d => Some((t.clone(), self.desc(md))),
+			_ => None,
+		})
+	}
+	/// `None`: the super types are cyclic (no pre-order)
+	fn member(&self, field: bool, o: &JavaStr, n: &JavaStr, d: &JavaStr) -> Option<(S, S)> {
+		let mut order = Vec::new();
+		self.pre_order(self.supers.len() + 1, o, &mut order)?;
+		Some(order.iter().find_map(|c| self.declares(field, c, n, d)).unwrap_or_else(|| (n.to_owned(), self.desc(d))))
+	}
+}
+/// `oracle-table-spec`: every recorded answer of the remapper whose question is inside the grammar is the answer of the reference
+fn table_spec(spec: &Spec, t: &Sexp) -> R<Ans> {
+	let [cs, ds, fs, ms] = t.as_list()? else { return Err("table".into()) };
+	let o1 = |v: &Sexp| -> R<Option<S>> { Ok(match v.as_opt()? { None => None, Some(x) => Some(x.as_jstring()?) }) };
+	let o2 = |v: &Sexp| -> R<Option<(S, S)>> { Ok(match v.as_opt()? { None => None, Some(x) => { let [n, d] = x.as_list()? else { return Err("nd".into()) }; Some((n.as_jstring()?, d.as_jstring()?)) } }) };
+	for e in cs.as_list()? {
+		let [k, v] = e.as_list()? else { return Err("row".into()) };
+		if o1(v)? != Some(spec.class(&k.as_jstring()?)) { return Ok(Ans::fail("table-class")); }
+	}
+	for e in ds.as_list()? {
+		let [k, v] = e.as_list()? else { return Err("row".into()) };
+		let k = k.as_jstring()?;
+		if !(field_desc_ok(&k) || method_desc_ok(&k) || *k == *"V") { continue; }
+		if o1(v)? != Some(spec.desc(&k)) { return Ok(Ans::fail("table-desc")); }
+	}
+	if !spec.all_member_descs_ok() { return Ok(Ans::pass()); }
+	for (tab, is_f) in [(fs, true), (ms, false)] {
+		for e in tab.as_list()? {
+			let [k, v] = e.as_list()? else { return Err("row".into()) };
+			let [o, n, d] = k.as_list()? else { return Err("key".into()) };
+			let (o, n, d) = (o.as_jstring()?, n.as_jstring()?, d.as_jstring()?);
+			if !(if is_f { field_desc_ok(&d) } else { method_desc_ok(&d) }) { continue; }
+			let Some(want) = spec.member(is_f, &o, &n, &d) else { return Ok(Ans::out_of_domain()) };
+			if o2(v)? != Some(want) { return Ok(Ans::fail(if is_f { "table-field" } else { "table-method" })); }
 		}
 	}
-	true
+	Ok(Ans::pass())
 }
 
 // ------------------------------------------------------------------ generation of request lines
@@ -825,7 +1028,8 @@ fn emit_class_ops(r: &mut Rng, out: &mut Out, class: &ClassFile, hint: &Sexp, wi
 	out.op("remap-class", &[cs.clone(), maps.clone(), aux.clone(), t.clone()]);
 	out.op("oracle-remap-refs", &[cs.clone(), maps.clone(), aux.clone(), t.clone()]);
 	if m.ics.is_some() { out.op("oracle-inner-names", &[cs.clone(), maps.clone(), aux.clone(), t.clone()]); }
-	out.op("oracle-remap-shape", &[cs.clone(), maps, aux, t]);
+	out.op("oracle-remap-shape", &[cs.clone(), maps.clone(), aux.clone(), t.clone()]);
+	out.op("oracle-table-spec", &[Sexp::list(vec![]), maps, aux, t]);
 	if with_refs { out.op("refs", &[cs, hint.clone()]); }
 }
 
@@ -839,7 +1043,11 @@ fn corpus_files(tier: Tier) -> Vec<String> {
 fn corpus_hint(f: &str) -> Sexp { Sexp::list(vec![Sexp::tag("corpus"), Sexp::str(f)]) }
 const FIXTURES: &[&str] = &["indy", "condy", "enum", "enum-array", "attrs", "attrs-all", "record", "signature", "plain"];
 
-fn gen_jar(r: &mut Rng, files: &[String]) -> Vec<Ent> {
+/// a corpus or assembled class the reader rejects is not dropped silently: `oracle-hint-reads` fails on it (these classes are
+/// valid class files by construction, the model side answers `pass` without looking)
+fn emit_rejected(out: &mut Out, hint: &Sexp) { out.stats.hit("class:rejected-by-reader"); out.op("oracle-hint-reads", &[hint.clone()]); }
+
+fn gen_jar(r: &mut Rng, files: &[String], rejected: &mut Vec<Sexp>) -> Vec<Ent> {
 	let mut es = Vec::new();
 	for _ in 0..r.range(1, 4) {
 		match r.below(9) {
@@ -850,11 +1058,11 @@ fn gen_jar(r: &mut Rng, files: &[String]) -> Vec<Ent> {
 			2 => es.push(Ent { name: (*r.pick(&["a/A.class", "weird.class", ".class"])).to_owned(), kind: EntK::Other(vec![0xca, 0xfe]) }),   // not a class as far as the jar is concerned
 			3 if !files.is_empty() => {
 				let f = r.pick(files).clone();
-				if let Ok(c) = corpus_class(&f) { es.push(Ent { name: format!("{}.class", c.name.as_inner()), kind: EntK::Class(corpus_hint(&f), c) }); }
+				match corpus_class(&f) { Ok(c) => es.push(Ent { name: format!("{}.class", c.name.as_inner()), kind: EntK::Class(corpus_hint(&f), c) }), Err(_) => rejected.push(corpus_hint(&f)) }
 			}
 			7 => {
 				let seed = r.next() % 1_000_000;
-				if let Ok(c) = gen_asm(seed) { es.push(Ent { name: format!("{}.class", c.name.as_inner()), kind: EntK::Class(hint_sexp_asm(seed), c) }); }
+				match gen_asm(seed) { Ok(c) => es.push(Ent { name: format!("{}.class", c.name.as_inner()), kind: EntK::Class(hint_sexp_asm(seed), c) }), Err(_) => rejected.push(hint_sexp_asm(seed)) }
 			}
 			k => {
 				let seed = r.next() % 1_000_000;
@@ -908,9 +1116,12 @@ fn emit_jar_ops(r: &mut Rng, out: &mut Out, es: &[Ent]) {
 	let t = q.t.borrow().to_sexp();
 	out.op("remap-jar", &[jar.clone(), maps.clone(), aux.clone(), t.clone()]);
 	out.op("oracle-entries", &[jar.clone(), maps.clone(), aux.clone(), t.clone()]);
-	let w = match jar_from(&jar, &hints) { Ok(Some((pj, _))) => writable(&pj), _ => false };
-	out.stats.hit(if w { "jar:writable" } else { "jar:not-writable" });
-	out.op("oracle-reopen", &[jar, maps, aux, t, Sexp::bool(w)]);
+	let w = classes_writable(hints.as_list().unwrap_or(&[]), &cls);
+	let kinds: Vec<u8> = es.iter().map(|e| match e.kind { EntK::Dir => 0, EntK::Other(_) => 1, EntK::Class(..) => 2 }).collect();
+	let names: Vec<String> = es.iter().map(|e| e.name.clone()).collect();
+	out.stats.hit(if !w { "jar:class-outside-writer-domain" } else if !reopen_names_ok(&names, &kinds) { "jar:names-do-not-reopen" } else { "jar:writable" });
+	out.op("oracle-reopen", &[jar, maps.clone(), aux.clone(), t.clone(), Sexp::bool(w)]);
+	out.op("oracle-table-spec", &[Sexp::list(vec![]), maps, aux, t]);
 }
 
 /// request lines replaying the findings (full-strength oracles, no domain): `C07_WITNESS=open c07 gen` prints the open
@@ -957,10 +1168,24 @@ fn witnesses(out: &mut Out, regress: bool) {
 		ask_class(&q, &m);
 		out.op(op, &[class_to_sexp(&m), maps, Sexp::list(vec![sup, hint]), q.t.borrow().to_sexp()]);
 	}
+	if regress {
+		// duke's class writer did not write the unknown attributes of `Code` (repaired: ad22ed9); every fact survives re-opening
+		if let (Some(c), hint) = fx("attrs-all") {
+			let es = vec![Ent { name: "x/X.class".to_owned(), kind: EntK::Class(hint, c) }];
+			let g = GMap::default();
+			let (maps, sup) = (g.mappings_sexp(), g.supers_sexp());
+			build_remapper!(mm, prov, b, &maps, &sup, return);
+			let q = Rec::new(&b);
+			for e in &es { if let EntK::Class(_, c) = &e.kind { ask_class(&q, &project(c)); } ask_entry_name(&q, &js(&e.name)); }
+			let (jar, hints) = jar_sexp(&es);
+			out.op("oracle-reopen", &[jar, maps, Sexp::list(vec![sup, hints]), q.t.borrow().to_sexp(), Sexp::bool(true)]);
+		}
+	}
 }
 
 fn gen(r: &mut Rng, tier: Tier, out: &mut Out) {
 	if let Ok(w) = std::env::var("C07_WITNESS") { return witnesses(out, w == "regress"); }
+	if let Ok(n) = std::env::var("C07_PROBE") { return probe(n.parse().unwrap_or(1000)); }
 	let th = tier == Tier::Thorough;
 	let files = corpus_files(tier);
 	// fixtures and corpus classes first: every one under several remappers
@@ -969,7 +1194,7 @@ fn gen(r: &mut Rng, tier: Tier, out: &mut Out) {
 		for _ in 0..(if th { 20 } else { 4 }) { emit_class_ops(r, out, &c, &Sexp::list(vec![Sexp::tag("fixture"), Sexp::tag(name)]), true); }
 	}
 	for f in &files {
-		let Ok(c) = corpus_class(f) else { out.stats.hit("corpus:unreadable"); continue };
+		let Ok(c) = corpus_class(f) else { out.stats.hit("corpus:unreadable"); emit_rejected(out, &corpus_hint(f)); continue };
 		out.stats.hit("corpus:class");
 		for i in 0..(if th { 40 } else { 5 }) { emit_class_ops(r, out, &c, &corpus_hint(f), i == 0); }
 	}
@@ -982,11 +1207,13 @@ fn gen(r: &mut Rng, tier: Tier, out: &mut Out) {
 		let seed = r.next() % 1_000_000_000;
 		match gen_asm(seed) {
 			Ok(c) => { out.stats.hit("asm:read"); emit_class_ops(r, out, &c, &hint_sexp_asm(seed), i % 5 == 0); }
-			Err(_) => out.stats.hit("asm:rejected-by-reader"),
+			Err(_) => { out.stats.hit("asm:rejected-by-reader"); emit_rejected(out, &hint_sexp_asm(seed)); }
 		}
 	}
-	for _ in 0..(if th { 3000 } else { 150 }) {
-		let es = gen_jar(r, &files);
+	for _ in 0..(if th { 3300 } else { 165 }) {
+		let mut rejected = Vec::new();
+		let es = gen_jar(r, &files, &mut rejected);
+		for h in &rejected { emit_rejected(out, h); }
 		emit_jar_ops(r, out, &es);
 	}
 	// entry names: the rewrite looks at the name alone
@@ -1017,6 +1244,10 @@ fn exec(op: &str, args: &[Sexp]) -> Ans {
 		let m = project(&class);
 		if class_to_sexp(&m) != *c { return Ans::Skip("class differs from its hint".into()); }
 		return Ans::Ok(Sexp::list(refs(&m).iter().map(ref_to_sexp).collect()));
+	}
+	if op == "oracle-hint-reads" {
+		let [hint] = args else { return Ans::BadOp("args".into()) };
+		return if class_from_hint(hint).is_ok() { Ans::pass() } else { Ans::fail("rejected-by-reader") };
 	}
 	if args.len() < 4 { return Ans::BadOp("args".into()); }
 	let (subject, maps, aux, table) = (&args[0], &args[1], &args[2], &args[3]);
@@ -1063,14 +1294,13 @@ fn exec(op: &str, args: &[Sexp]) -> Ans {
 			if op == "oracle-reopen" {
 				let Some(w) = args.get(4) else { return Ans::BadOp("args".into()) };
 				let w = tr!(w.as_bool());
-				if w != writable(&pj) { return Ans::Skip("writable flag differs".into()); }
-				if !w { return Ans::out_of_domain(); }
-				// the input jar itself survives `to_mem` and re-opening: same entry names in the same order, directories stay
-				// directories, every other file keeps its bytes (the empty file included), classes keep their declarations
+				if w != classes_writable(tr!(hints.as_list()), &cls) { return Ans::Skip("writable flag differs".into()); }
+				if !w || !reopen_names_ok(&names, &kinds) { return Ans::out_of_domain(); }
+				// the input jar itself survives `to_mem` and re-opening (`expected_reopen`); a class writer that fails on it: `input-write`
 				match (reopen(clone_jar(&pj)), expected_reopen(&pj)) {
 					(Ok(a), Ok(b)) => if a != b { return Ans::fail("input-reopen-differs"); },
-					(Err(e), _) => return Ans::fail(&format!("input-reopen-{}", e.split(':').next().unwrap_or("x"))),
-					(_, Err(_)) => return Ans::out_of_domain(),
+					(Err(e), _) => return Ans::fail(&format!("input-{}", e.split(':').next().unwrap_or("x"))),
+					(_, Err(_)) => return Ans::fail("input-facts"),
 				}
 			}
 			let res = dukebox::remap::remap(pj, ByRef(&b));
@@ -1103,11 +1333,13 @@ fn exec(op: &str, args: &[Sexp]) -> Ans {
 				_ => {
 					let Ok(j) = res else { return Ans::out_of_domain() };
 					if !in_domain { return Ans::out_of_domain(); }
-					let exp = tr!(expected_reopen(&j));
+					let Ok(exp) = expected_reopen(&j) else { return Ans::fail("reopen-facts") };
 					match reopen(j) { Ok(got) => if got == exp { Ans::pass() } else { Ans::fail("reopen-differs") }, Err(e) => Ans::fail(&format!("reopen-{}", e.split(':').next().unwrap_or("x"))) }
 				}
 			}
 		}
+		// the recorded table against the harness-own reading of the request's mappings and super types
+		"oracle-table-spec" => tr!(table_spec(&tr!(Spec::from(maps, sup)), table)),
 		"entry-name" => {
 			let n = tr!(subject.as_string());
 			match dukebox::remap::remap_jar_entry_name(&n, &b) { Ok(x) => Ans::Ok(Sexp::str(&x)), Err(_) => Ans::err() }
